@@ -446,3 +446,47 @@ def finish(res, tier, t0, level="other", explanation="", checker_cmd="", extra_c
     print(f"== {prop}: {len(res.obs)} obligations, {sum(1 for o in res.obs if o.ok)} discharged, "
           f"{len(viol)} violation(s), {len(seen)} known finding(s), {ev['wall_s']} s")
     return 1 if viol else 0
+
+
+# --------------------------------------------------------------------------- E3: expanded source
+
+_expanded_cache = {}
+
+
+def load_expanded(root=None, rename=("idx", "idx2", "off", "off2", "val")):
+    """Macro-expanded library source (cargo +nightly rustc -- -Zunpretty=expanded,hygiene) parsed by astdump.
+    Identifiers in `rename` that were introduced by a macro expansion get their hygiene context appended
+    (`idx__h96`), so that two operands bound to the 'same' name by different expansion steps stay distinct.
+    Nothing is executed: the compiler stops after expansion."""
+    import re, tempfile, shutil
+    root = root or REPO
+    if root in _expanded_cache:
+        return _expanded_cache[root]
+    tdir = tempfile.mkdtemp(prefix="hpbf-exp-")
+    try:
+        env = dict(os.environ, CARGO_TARGET_DIR=os.path.join(tdir, "target"), CARGO_NET_OFFLINE="true")
+        p = subprocess.run(["cargo", "+nightly", "rustc", "--offline", "--lib", "--quiet", "--", "-Zunpretty=expanded,hygiene", "-Awarnings"],
+                           cwd=root, env=env, capture_output=True, text=True)
+        if p.returncode != 0 or "fn " not in p.stdout:
+            raise CheckerError("macro expansion failed: " + p.stderr.strip()[-400:])
+        text = p.stdout
+        names = "|".join(re.escape(n) for n in rename)
+
+        def sub(m):
+            name, ctx = m.group(1), m.group(2)
+            if ctx != "0" and re.fullmatch(names, name):
+                return f"{name}__h{ctx}"
+            return name
+        text = re.sub(r"\b([A-Za-z_][A-Za-z0-9_]*)\s*/\*\s*\d+#(\d+)\s*\*/", sub, text)
+        fn = os.path.join(tdir, "expanded.rs")
+        with open(fn, "w") as fh:
+            fh.write(text)
+        q = subprocess.run([ASTDUMP, "--root", tdir, fn], capture_output=True, text=True)
+        if q.returncode != 0:
+            raise CheckerError("astdump failed on the expanded source: " + q.stderr.strip()[-400:])
+        a = Ast(json.loads(q.stdout), tdir)
+        a.lines("expanded.rs")
+        _expanded_cache[root] = a
+        return a
+    finally:
+        shutil.rmtree(tdir, ignore_errors=True)
